@@ -1,4 +1,5 @@
 import EventppVerif.CL.Machine
+import Driver.QDriver
 /-
   Line-protocol driver: reads scripts on stdin, runs them on the Lean Model or Spec and prints
   canonical output lines.  The C++ harness (harness/seq.cpp) reads the same scripts, drives the
@@ -140,6 +141,9 @@ partial def readAll (h : IO.FS.Stream) (acc : Array String) : IO (Array String) 
 def main (args : List String) : IO Unit := do
   let mode := args.headD "model"
   let lines ← readAll (← IO.getStdin) #[]
+  if mode = "q" then
+    QD.main lines
+    return
   let out ← IO.getStdout
   let mut cur : Option Script := none
   let flush (s : Option Script) : IO Unit := do
